@@ -248,15 +248,15 @@ def main(tier):
     keys = ['income', 'investment', 'transfer_in', 'transfer_out', 'spending', 'credits', 'excluded', 'is_income',
             'is_transfer', 'is_investment', 'cash_flow']
     if js_out is not None:
-        for c, p, j in zip(cases, py_out['results'], js_out):
+        for ci, (c, p, j) in enumerate(zip(cases, py_out['results'], js_out)):
             if 'error' in p or 'error' in j:
                 if ('error' in p) != ('error' in j):
-                    mism.append({'amount': hex2f(c[0]), 'amount_hex': c[0], 'tags': c[1], 'python': p, 'js': j})
+                    mism.append({'amount': hex2f(c[0]), 'amount_hex': c[0], 'tags': c[1], 'python': p, 'js': j, 'index': ci})
                 continue
             d = [k for k in keys if p[k] != j[k]]
             if d or sorted(p['keys']) != sorted({'transferIn': 'transfer_in', 'transferOut': 'transfer_out'}.get(k, k) for k in j['keys']):
                 mism.append({'amount': hex2f(c[0]), 'amount_hex': c[0], 'tags': c[1], 'differs_in': d,
-                             'python': p, 'js': j, 'spending_arg': c[2], 'credits_arg': c[3]})
+                             'python': p, 'js': j, 'spending_arg': c[2], 'credits_arg': c[3], 'index': ci})
     # lower-casing sweep
     pl = py_out['ascii_lower']
     jl = json.loads(subprocess.run(['node', '-e', NODE_LOWER], capture_output=True, text=True, timeout=120).stdout)
@@ -306,6 +306,22 @@ def main(tier):
 
     if mism:
         m = min(mism, key=lambda x: (len(x.get('tags') or []), abs(x['amount']) if x['amount'] == x['amount'] else 0))
+        if 'index' in m and not seq_differs([cases[m['index']]])[-1]:
+            # the case agrees when evaluated on its own: the answer depends on what was classified before it
+            # (state kept between calls on one side). Keep the shortest run of preceding cases that reproduces it.
+            for m2 in sorted((x for x in mism if 'index' in x), key=lambda x: x['index']):
+                i = m2['index']
+                k = 1
+                while k <= i and not seq_differs(cases[i - k:i + 1])[-1]:
+                    k *= 2
+                k = min(k, i)
+                seq = cases[i - k:i + 1]
+                if seq_differs(seq)[-1]:
+                    while len(seq) > 2 and seq_differs(seq[1:])[-1]:
+                        seq = seq[1:]
+                    m = dict(m2, sequence=[list(x) for x in seq], history_dependent=True,
+                             note='agrees when classified alone; differs after the preceding calls in one session')
+                    break
         run.violation('diff', {'kind': 'counterexample', 'case': m, 'expected': 'Python and JS classification agree',
                                'obligation': 'c13_categorize_equiv / node-vs-python differential',
                                'broken': broken, 'n_mismatches': len(mism)})
@@ -317,12 +333,38 @@ def main(tier):
     run.finish()
 
 
+KEYS = ['income', 'investment', 'transfer_in', 'transfer_out', 'spending', 'credits', 'excluded', 'is_income',
+        'is_transfer', 'is_investment', 'cash_flow']
+
+
+def seq_differs(seq):
+    """Classify the cases one after the other in ONE python process and ONE node process; per case, the keys on
+    which the two sides differ."""
+    seq = [tuple(x) for x in seq]
+    ps = run_impl(PY_DRIVER, {'cases': seq})['results']
+    js = run_node(seq)
+    out = []
+    for p, j in zip(ps, js):
+        if 'error' in p or 'error' in j:
+            out.append(['error'] if ('error' in p) != ('error' in j) else [])
+        else:
+            out.append([k for k in KEYS if p.get(k) != j.get(k)])
+    return out
+
+
 def replay(path):
     obj = json.load(open(path))
     if obj.get('kind') != 'counterexample':
         print(f'replay: {obj.get("kind")} — re-running the quick check')
         main('quick')
     c = obj['case']
+    if c.get('sequence'):
+        d = seq_differs(c['sequence'])
+        print(json.dumps({'sequence': c['sequence'], 'differs_in_per_call': d}, indent=1))
+        if any(d):
+            print(f'VIOLATION property=C13 replay={path}')
+            return 1
+        return 0
     case = [(c['amount_hex'], c.get('tags'), c.get('spending_arg', f2hex(0.0)), c.get('credits_arg', f2hex(0.0)))]
     p = run_impl(PY_DRIVER, {'cases': case})['results'][0]
     j = run_node(case)[0]
